@@ -10,6 +10,15 @@ VARIABLE c
 Init == c \in Cases
 Next == UNCHANGED c
 LawsHoldOnSpec == \A o \in OpsOf(c.par, c.t, c.s) : C21Failed(c.par, c.t, c.s, o, SpecObs(c.par, c.t, c.s, o)) = {}
+\* the cheap ancestry operators of History mean the same as the library's (checked at the small bounds)
+FastAgreesWithDag ==
+    LET P == c.par
+        R == DOMAIN P \cup Ghosts(P) \cup {Null}
+    IN /\ \A r \in R : Anc0(P, r) = (IF r = Null THEN {} ELSE Ancestry(P, r))
+       /\ \A r \in DOMAIN P : AncG(P, r) = AncestryG(P, r) /\ MergedByF(P, r) = MergedBy(P, r)
+       /\ \A S \in SUBSET (DOMAIN P \cup {Null}) : Cardinality(S) <= 3 => HeadsF(P, S) = Heads(P, S)
+       /\ \A a, b \in DOMAIN P : CommonAnc(P, a, b) = CommonAncestors(P, a, b)
+       /\ Covers(P, c.t, c.s) = (Anc0(P, c.t) \cup Anc0(P, c.s) = DOMAIN P)
 \* anti-vacuity: TLC must reach these
 Outs(x) == {<<o, OpOut(x.par, x.t, x.s, o)>> : o \in OpsOf(x.par, x.t, x.s)}
 WitnessDivergedGhost == ~(Ghosts(c.par) # {} /\ \E p \in Outs(c) : p[1].op = "pull" /\ p[2].exc = "DivergedBranches")
